@@ -224,15 +224,27 @@ class Interp:
         for name, v in zip(f.params, args):
             p0.env[name] = v
         done = []
-        work = [(p0, f.order[0], None)]
+        work = [(p0, f.order[0], None, 0)]
         steps = 0
         while work:
-            p, blk, pred = work.pop()
+            p, blk, pred, start = work.pop()
             while True:
                 steps += 1
                 if steps > 5000:
                     raise AnalysisBroken("absint: path explosion / loop in %s" % fname)
-                nxt = self.exec_block(f, p, blk, pred)
+                nxt = self.exec_block(f, p, blk, pred, start)
+                start = 0
+                if isinstance(nxt, tuple) and nxt[0] == "callfork":
+                    # the callee has several paths: continue this block once per callee path
+                    _tag, idx, dst, alts = nxt
+                    for (q_mem, q_calls, q_stores, q_ret, q_trace) in alts:
+                        q = Path()
+                        q.env, q.mem = dict(p.env), dict(q_mem)
+                        q.allocs, q.calls, q.stores, q.trace = list(p.allocs), list(p.calls) + q_calls, list(p.stores) + q_stores, list(p.trace) + q_trace
+                        if dst:
+                            q.env[dst] = q_ret
+                        work.append((q, blk, pred, idx + 1))
+                    break
                 if nxt is None:
                     done.append(p)
                     break
@@ -243,14 +255,18 @@ class Interp:
                     q = Path()
                     q.env, q.mem = dict(p.env), dict(p.mem)
                     q.allocs, q.calls, q.stores, q.trace = list(p.allocs), list(p.calls), list(p.stores), list(p.trace) + [assume]
-                    work.append((q, b2, blk))
+                    work.append((q, b2, blk, 0))
                 p.trace.append(nxt[0][1])
                 pred, blk = blk, nxt[0][0]
         return done
 
-    def exec_block(self, f, p, blk, pred):
-        for ins in f.blocks[blk]:
+    def exec_block(self, f, p, blk, pred, start=0):
+        for i, ins in enumerate(f.blocks[blk]):
+            if i < start:
+                continue
             r = self.exec(f, p, ins, blk, pred)
+            if isinstance(r, tuple) and r[0] == "callfork":
+                return ("callfork", i, r[1], r[2])
             if r is not None:
                 return r if r != "ret" else None
         raise AnalysisBroken("absint: block %s of %s falls through" % (blk, f.name))
@@ -394,12 +410,21 @@ class Interp:
                 sub = Interp(self.funcs, self.structs, self.align)
                 sub.nregion = self.nregion
                 paths = sub.run(name, args, p.mem)
-                if len(paths) != 1:
-                    raise AnalysisBroken("absint: callee %s has %d paths (only straight-line callees are inlined)" % (name, len(paths)))
-                p.calls.append(("call", name, args))
-                if dst:
-                    p.env[dst] = paths[0].ret
-                return None
+                self.nregion = sub.nregion
+                self.maybe_null |= sub.maybe_null
+                if len(paths) == 1:
+                    q = paths[0]
+                    p.mem = dict(q.mem)
+                    p.calls.append(("call", name, args))
+                    p.calls.extend(c for c in q.calls)
+                    p.stores.extend(q.stores)
+                    p.allocs.extend(q.allocs)
+                    if dst:
+                        p.env[dst] = q.ret
+                    return None
+                if len(paths) > 8:
+                    raise AnalysisBroken("absint: callee %s has %d paths" % (name, len(paths)))
+                return ("callfork", dst, [(q.mem, [("call", name, args)] + list(q.calls), list(q.stores), q.ret, list(q.trace)) for q in paths])
             p.calls.append(("ext", name, args))
             if dst:
                 p.env[dst] = TOP
